@@ -1,5 +1,5 @@
 """Build steps shared by every check: library flavours, harness, tables, Lean library + driver."""
-import fcntl, glob, hashlib, json, os, re, subprocess, sys, time
+import shutil, fcntl, glob, hashlib, json, os, re, subprocess, sys, time
 
 VERIF = os.path.dirname(os.path.dirname(os.path.abspath(__file__)))
 REPO = os.environ.get('VERIF_REPO', '/repo')
@@ -9,8 +9,8 @@ NCPU = os.cpu_count() or 4
 
 FLAVOURS = {
     'plain': {'cxxflags': '-Wno-error -DNIX_VERIF', 'ldflags': ''},
-    'asan': {'cxxflags': '-Wno-error -DNIX_VERIF -fsanitize=address,undefined -fno-sanitize-recover=undefined -fno-omit-frame-pointer',
-             'ldflags': '-fsanitize=address,undefined'},
+    'asan': {'cxxflags': '-Wno-error -DNIX_VERIF -fsanitize=address,undefined,float-cast-overflow -fno-sanitize-recover=undefined,float-cast-overflow -fno-omit-frame-pointer',
+             'ldflags': '-fsanitize=address,undefined,float-cast-overflow'},
 }
 
 class BuildError(Exception):
@@ -43,10 +43,16 @@ def build_lib(flavour='plain'):
     d = libdir(flavour)
     fl = FLAVOURS[flavour]
     t0 = time.time()
+    # a build directory configured with other flags than this flavour has now is configured anew
+    stamp = os.path.join(d, 'verif-flags.txt')
+    want = 'INIT ' + fl['cxxflags'] + '\n' + fl['ldflags'] + '\n'
+    if os.path.exists(os.path.join(d, 'build.ninja')) and (not os.path.exists(stamp) or open(stamp).read() != want):
+        shutil.rmtree(d, ignore_errors=True)
     if not os.path.exists(os.path.join(d, 'build.ninja')):
         os.makedirs(d, exist_ok=True)
+        open(stamp, 'w').write(want)
         cmd = ['cmake', '-G', 'Ninja', '-S', REPO, '-B', d, '-DCMAKE_BUILD_TYPE=RelWithDebInfo',
-               '-DBUILD_TESTING=OFF', '-DCMAKE_CXX_FLAGS=' + fl['cxxflags']]
+               '-DBUILD_TESTING=OFF', '-DCMAKE_CXX_FLAGS_INIT=' + fl['cxxflags']]     # the project's CMakeLists.txt builds CMAKE_CXX_FLAGS from …_INIT (a plain CMAKE_CXX_FLAGS is overwritten there)
         if fl['ldflags']:
             cmd.append('-DCMAKE_SHARED_LINKER_FLAGS=' + fl['ldflags'])
         rc, out = sh(cmd)
@@ -70,7 +76,7 @@ def build_harness(flavour='plain'):
     mk = ['CXX=g++', 'CXXFLAGS=-std=c++11 %s -g -w %s %s' % (opt, fl['cxxflags'], inc),
           'all: nixdrv', '']
     for s, o in zip(srcs, objs):
-        mk.append('%s: %s\n\t$(CXX) $(CXXFLAGS) -MMD -MP -c %s -o %s' % (o, s, s, o))
+        mk.append('%s: %s Makefile\n\t$(CXX) $(CXXFLAGS) -MMD -MP -c %s -o %s' % (o, s, s, o))
     mk.append('nixdrv: %s %s/libnixio.so\n\t$(CXX) %s %s -o nixdrv -L%s -lnixio -lhdf5_serial -lpthread -Wl,-rpath,%s'
               % (' '.join(objs), ld, fl['ldflags'], ' '.join(objs), ld, ld))
     mk.append('-include %s' % ' '.join(o[:-2] + '.d' for o in objs))
@@ -122,7 +128,12 @@ def gen_tables():
     # which unit predicate every front-end function calls: Props/C13UnitChecks.lean
     out8 = os.path.join(LEAN, 'NixModel', 'Gen', 'UnitChecks.lean')
     rc8, o8 = sh([sys.executable, os.path.join(VERIF, 'gen', 'extract_unitchecks.py'), REPO, out8])
-    return rc8 == 0, o + o2 + o3 + o4 + o5 + o6 + o7 + o8
+    if rc8 != 0:
+        return False, o + o2 + o3 + o4 + o5 + o6 + o7 + o8
+    # which attribute / data set every backend member function names (getter, setter, reset, guards): Props/C02Fields.lean
+    out9 = os.path.join(LEAN, 'NixModel', 'Gen', 'Fields.lean')
+    rc9, o9 = sh([sys.executable, os.path.join(VERIF, 'gen', 'extract_fields.py'), REPO, out9])
+    return rc9 == 0, o + o2 + o3 + o4 + o5 + o6 + o7 + o8 + o9
 
 def lake(target):
     env = dict(os.environ)
